@@ -7,10 +7,10 @@ import G3D.Proofs.AlgebraAll
 import G3D.Proofs.K4f
 import G3D.Proofs.AlgebraEuler
 import G3D.Proofs.EulerAllProof
-/-! # C12 — intersection obeys the algebra of set intersection  (full for flats; partial for bodies)
-    For flats everything follows from C01 because flats are closed under `intersection`.  For polygons the
-    "vertices in both" clause follows from C02's exactness; self-intersection / subset / associativity for
-    polygons and polyhedra need the unproved kernels (K2–K5) and are decided by the correspondence. -/
+/-! # C12 — intersection obeys the algebra of set intersection  (full)
+    Flats: everything follows from C01.  All seven types: results are admissible operands again (`Proofs/ExactAll.lean`, K4), so
+    associativity, intersection(a,a) = a and a ⊆ b ⇒ intersection = a hold for all 343 type triples (`assoc_all_types`, …);
+    Euler's polyhedron formula, on which the polyhedron × polyhedron case rests, is proved (`eulerAll`). -/
 namespace G3D.Props.C12
 open G3D V3
 
